@@ -6,6 +6,7 @@ import (
 	"regexp"
 	"strconv"
 	"sync"
+	"time"
 
 	"github.com/practable/relay/internal/permission"
 	"github.com/practable/relay/internal/ttlcode"
@@ -17,6 +18,7 @@ var uuidV4 = regexp.MustCompile(`^[0-9a-f]{8}-[0-9a-f]{4}-4[0-9a-f]{3}-[89ab][0-
 // mode ttlcode: the real ttlcode.CodeStore under the virtual clock (verifhook.Now)
 func init() {
 	register("ttlcode", func(args []string) {
+		opTimeout = 2 * time.Second // store operations are instantaneous; one that does not return has dead-locked
 		var cur *ttlcode.CodeStore
 		runLines(func() func(fs []string) string {
 			if cur != nil {
